@@ -1,6 +1,6 @@
 #!/bin/bash
 # Property-preserving refactorings (selftest/benign/*.diff): no check may raise an alarm on them.
-wt=${1:-/tmp/wt/C20}
+wt=${1:-/tmp/mt3}
 for d in /verif/selftest/benign/*.diff; do
   n=$(basename $d .diff)
   git -C $wt checkout -q -- . ; git -C $wt apply $d || { echo "$n: patch does not apply"; continue; }
